@@ -122,7 +122,7 @@ Theorem rtsp_playing_step cf s e id c :
   find_sub (step cf s e) id = Some (rtsp_after cf s e c).
 Proof.
   intros Hfind Hk Hfr Hstay. unfold find_sub in *.
-  destruct e as [m|k jid|lid| | |b| |v|pid|raw]; cbn [step rtsp_after].
+  destruct e as [m|k jid|lid| | |b| |v|pid|raw|]; cbn [step rtsp_after].
   - destruct (Nat.eqb (length (rm_payload m)) 0) eqn:Hne.
     + unfold publish. rewrite Hne. exact Hfind.
     + destruct (publish_subs cf s m Hne) as (F & E & A & _ & C). rewrite E.
@@ -148,6 +148,7 @@ Proof.
     unfold play_step. rewrite Hfr. now rewrite Bool.andb_false_r, Bool.andb_false_l.
   - unfold feed_rtp, rtp_boundary_at. cbn [g_subs]. destruct (rtp_pt raw) as [pt|]; [|exact Hfind].
     rewrite find_map_id by (intro; apply rtsp_step_id). rewrite Hfind. reflexivity.
+  - destruct Hstay.
 Qed.
 
 (* ------------------------------------------------------------------ *)
@@ -208,7 +209,7 @@ Fixpoint rtp_units (n : nat) (h : list ev) : list label :=
 Lemma g_next_rtp_step cf s e :
   g_next_rtp (step cf s e) = match e with EvRtp _ => S (g_next_rtp s) | _ => g_next_rtp s end.
 Proof.
-  destruct e as [m|k id|id| | |b| |v|pid|raw]; cbn [step].
+  destruct e as [m|k id|id| | |b| |v|pid|raw|]; cbn [step].
   - unfold publish. destruct (Nat.eqb _ 0); [reflexivity|].
     rewrite rtmp_loop_spec.
     destruct (has_kind KRtmp _); [destruct (cf_merge cf =? 0); [|destruct (cf_merge cf <=? _)]|]; reflexivity.
@@ -221,12 +222,13 @@ Proof.
   - reflexivity.
   - reflexivity.
   - reflexivity.
+  - reflexivity.
 Qed.
 
 Lemma stays_of_attached id k e h c :
   c_id c = id -> c_kind c = k -> k <> KPush -> attached id k (e :: h) -> stays e c /\ attached id k h.
 Proof.
-  intros Hid Hk Hp Hatt. destruct e; cbn [attached stays] in *; try (split; [exact I|exact Hatt]).
+  intros Hid Hk Hp Hatt. destruct e; cbn [attached stays] in *; try contradiction; try (split; [exact I|exact Hatt]).
   - destruct Hatt as [H1 H2]. split; [congruence|exact H2].
   - destruct Hatt as [H1 H2]. split; [congruence|exact H2].
 Qed.
@@ -310,7 +312,7 @@ Proof.
   intros Hcfg Hfind Hk Hf Hw Hatt Hq Hpt Hb.
   assert (Hatt1 : attached id KRtsp h1 /\ attached id KRtsp h2).
   { clear -Hatt. induction h1 as [|e h1 IH]; [split; [exact I|exact Hatt]|].
-    destruct e; cbn [app attached] in *; try (apply IH; exact Hatt);
+    destruct e; cbn [app attached] in *; try contradiction; try (apply IH; exact Hatt);
       destruct Hatt as [H1 H2]; destruct (IH H2) as [A B]; split; try split; assumption. }
   destruct Hatt1 as [Hatt1 Hatt2].
   assert (H1 : find_sub (run cf (h0 ++ h1)) id = Some c).
@@ -394,7 +396,7 @@ Qed.
 Lemma rtsp_inv_step cf s e : rtsp_inv s -> rtsp_inv (step cf s e).
 Proof.
   intros (Hs & Hg & Hd).
-  destruct e as [m|k jid|lid| | |b| |v|pid|raw]; cbn [step].
+  destruct e as [m|k jid|lid| | |b| |v|pid|raw|]; cbn [step].
   - destruct (Nat.eqb (length (rm_payload m)) 0) eqn:Hne.
     + unfold publish. rewrite Hne. split; [exact Hs|split; [exact Hg|exact Hd]].
     + destruct (publish_subs cf s m Hne) as (F & E & _ & B & C).
@@ -429,6 +431,7 @@ Proof.
     apply Forall_map_pres; [|exact Hs]. intros; now apply rtsp_ok_play.
   - unfold feed_rtp, rtsp_inv, sdp_ok. cbn [g_subs g_gone g_sdp]. split; [|split; [exact Hg|exact Hd]].
     destruct (rtp_pt raw); [|exact Hs]. apply Forall_map_pres; [|exact Hs]. intros; now apply rtsp_ok_rtp.
+  - unfold rtsp_inv, sdp_ok. cbn [g_subs g_gone g_sdp]. split; [constructor|]. split; [|exact I]. apply Forall_app. now split.
 Qed.
 
 Theorem rtsp_inv_run cf h : rtsp_inv (run cf h).
